@@ -69,7 +69,7 @@ fn north_of_base(km: f64) -> f64 {
     48.0 + km / R_KM * 180.0 / std::f64::consts::PI
 }
 
-/// Full location alphabet (DESIGN: same point, 10 km, 49.9 km, 50.1 km, 99 km, 101 km, antipode, poles, +-180 meridian).
+/// Full location alphabet (DESIGN: same point, 10 km, 49.9 km, 50.1 km, 99 km, 101 km, antipode, poles, +-180 meridian, 40 km east at 48 N).
 /// "same point" arises from two nodes choosing the same entry.
 fn full_locs() -> Vec<Loc> {
     let l = |n: &str, lat: f64, lon: f64| Loc { name: n.to_string(), lat, lon };
@@ -86,6 +86,8 @@ fn full_locs() -> Vec<Loc> {
         l("south-pole", -90.0, 0.0),
         l("equator@+180", 0.0, 180.0),
         l("equator@-180", 0.0, -180.0),
+        // 40 km due east of P0 at 48 N: 0.54 degrees of longitude apart (a degree of longitude is 74 km there)
+        l("E40km", 48.0, 10.0 + 40.0 / (R_KM * 48.0f64.to_radians().cos()) * 180.0 / std::f64::consts::PI),
     ]
 }
 /// Reduced alphabet for the larger-n family.
